@@ -16,6 +16,10 @@ What is translated, from which site (all located structurally, by AST shape — 
   microgrid_api_source.py            _BatteryDataMethods/_InverterDataMethods -> batteryDataMethods / inverterDataMethods
   timeseries/_base_types.py          Bounds.__contains__ (both ends present), SystemBounds.__contains__
                                                                             -> boundsContains, systemBoundsContains
+  battery_pool/_component_metrics.py ComponentMetricsData.__eq__ = equality of the stored metrics     -> metricsEqIsDataEq
+  battery_pool/_methods.py           SendOnUpdate._update_and_notify: event set iff no cached sample or `!=`, then
+                                     cached (through `_metric_updated` or inline; evaluated on the 3 situations) -> updateIffChanged
+                                     (both raise `Unsupported` instead of emitting `false`)
 
 The translator below handles the loop-free arithmetic subset these sites use (generator expressions inside
 `sum`/`max`/`min`, `len`, `math.isclose`, `is_close_to_zero`, chained comparisons, `+=`, if/else with
